@@ -90,6 +90,28 @@ fn plan_case(case: &mut Case) {
     }
     expect_eq!("vec", ids.rewrite(&plan), ids.iter().map(|i| map(*i)).collect::<Vec<_>>());
     expect_eq!("vecdeque", dq.rewrite(&plan), ids.iter().map(|i| map(*i)).collect::<VecDeque<_>>());
+    // the same queue with a physically wrapped ring buffer (front removals followed by pushes, as
+    // a queue that is consumed and refilled looks): contents and order are what matters
+    let wrapped = |items: &[Id]| -> VecDeque<Id> {
+        let mut q: VecDeque<Id> = VecDeque::with_capacity(items.len().max(1));
+        let cap = q.capacity();
+        let filler = cap - cap / 3; // push, then pop from the front, so that head sits mid-buffer
+        for _ in 0..filler {
+            q.push_back(Id::from(0));
+        }
+        for _ in 0..filler {
+            q.pop_front();
+        }
+        for i in items {
+            q.push_back(*i);
+        }
+        q
+    };
+    let wdq = wrapped(&ids);
+    if wdq.as_slices().1.len() > 0 {
+        case.add("wrapped_deques_rewritten", 1);
+    }
+    expect_eq!("vecdeque-wrapped", wdq.rewrite(&plan), ids.iter().map(|i| map(*i)).collect::<VecDeque<_>>());
     let bs: BTreeSet<Id> = ids.iter().copied().collect();
     expect_eq!("btreeset", bs.rewrite(&plan), bs.iter().map(|i| map(*i)).collect::<BTreeSet<_>>());
     let bm: BTreeMap<Id, Id> = ids.iter().enumerate().map(|(i, v)| (Id::from(i), *v)).collect();
@@ -125,7 +147,12 @@ fn plan_case(case: &mut Case) {
         flows.entry((map(e.src), map(e.dst))).or_default().push_back(map(e.msg));
     }
     // (two flows are never merged: the map is a bijection)
-    expect_eq!("network-ordered", ordered.rewrite(&plan), Network::Ordered(flows));
+    expect_eq!("network-ordered", ordered.rewrite(&plan), Network::Ordered(flows.clone()));
+    // ... also when the flows' queues are wrapped ring buffers
+    if let Network::Ordered(m) = &ordered {
+        let rewrapped: BTreeMap<(Id, Id), VecDeque<Id>> = m.iter().map(|(k, q)| (*k, wrapped(&q.iter().copied().collect::<Vec<_>>()))).collect();
+        expect_eq!("network-ordered-wrapped-queues", Network::Ordered(rewrapped).rewrite(&plan), Network::Ordered(flows));
+    }
     // dense map keyed by the rewritten type: value i moves to pos[i]
     let dm: DenseNatMap<Id, Id> = ids.iter().copied().collect();
     let mut dexp = vec![Id::from(0); n];
